@@ -17,11 +17,13 @@ Inductive ref :=
 | RObj (k : str)                    (* !uuid, or a !find without promises that matches a base object *)
 | RProm (p : N)                     (* !promise p *)
 | RFind (k : str) (ps : list N).    (* !find {..., attr: !promise p, ...} that matches object k *)
-Inductive sval := SStr (s : str) | SRef (r : ref).
+(* a `set` / attribute value: a scalar, one reference, or a list of references (list-valued `set`) *)
+Inductive sval := SStr (s : str) | SRef (r : ref) | SList (l : list ref).
 
 Definition ref_needs (r : ref) : list N :=
   match r with RObj _ => [] | RProm p => [p] | RFind _ ps => ps end.
-Definition sval_needs (v : sval) : list N := match v with SStr _ => [] | SRef r => ref_needs r end.
+Definition sval_needs (v : sval) : list N :=
+  match v with SStr _ => [] | SRef r => ref_needs r | SList l => flat_map ref_needs l end.
 Definition simple_needs (l : list (str * sval)) : list N := flat_map (fun kv => sval_needs (snd kv)) l.
 
 (* what an atomic action does when it runs *)
@@ -29,7 +31,7 @@ Inductive kind :=
 | KInstr                                                     (* an instruction whose parent resolved *)
 | KCreate (owner : ref) (attr : str) (name : str) (simple : list (str * sval))   (* target.create with the simple attributes *)
 | KAppend (owner : ref) (attr : str) (r : ref)               (* target.append(resolved r) *)
-| KSet (owner : ref) (attr : str) (v : sval)                 (* setattr(owner, attr, v) *)
+| KSet (owner : ref) (attr : str) (v : sval)                 (* setattr(owner, attr, v); list value: clear the list, append the members *)
 | KSync (owner : ref) (attr : str) (name : str) (found : bool).  (* the find step of a sync entry *)
 
 (* an action: what it does, the promises it must see resolved first (in the order the
@@ -158,13 +160,32 @@ with c_items (owner : ref) (attr : str) (l : items) : evs :=
 with c_groups (owner : ref) (g : groups) : evs :=
   match g with GNil => ENil | GCons attr l r => eapp (c_items owner attr l) (c_groups owner r) end.
 
+(* _operate_set resolves the value up front — a list value member by member, in order — and postpones the
+   whole `set` under the first promise that is still unknown; only then is the list cleared and refilled *)
 Definition c_set (owner : ref) (kv : str * sval) : act :=
   Act (KSet owner (fst kv) (snd kv)) (ref_needs owner ++ sval_needs (snd kv)) ENil.
 Fixpoint c_sets (owner : ref) (l : list (str * sval)) : evs :=
   match l with [] => ENil | kv :: r => ESub (c_set owner kv) (c_sets owner r) end.
 
+(* list-valued attributes of an object description are `complex`: _create_complex_object appends their
+   members one by one after the creation, each member waiting on its own *)
+Definition is_list (kv : str * sval) : bool := match snd kv with SList _ => true | _ => false end.
+Fixpoint c_refs (owner : ref) (attr : str) (l : list ref) : evs :=
+  match l with
+  | [] => ENil
+  | r :: t => ESub (Act (KAppend owner attr r) (ref_needs owner ++ ref_needs r) ENil) (c_refs owner attr t)
+  end.
+Fixpoint c_listattrs (owner : ref) (l : list (str * sval)) : evs :=
+  match l with
+  | [] => ENil
+  | (a, SList rs) :: t => eapp (c_refs owner a rs) (c_listattrs owner t)
+  | _ :: t => c_listattrs owner t
+  end.
+
 Definition c_sitem (owner : ref) (attr : str) (x : sitem) : act :=
   let needs := ref_needs owner ++ simple_needs (s_find x) in
+  let props := s_find x ++ s_set x in
+  let simple := filter (fun kv => negb (is_list kv)) props in
   if s_found x then
     (* candidate found: _operate_set on it, then the promise *)
     Act (KSync owner attr (s_name x) true) needs
@@ -172,9 +193,9 @@ Definition c_sitem (owner : ref) (attr : str) (x : sitem) : act :=
   else
     (* no candidate: create from find | set, carrying the promise_id *)
     Act (KSync owner attr (s_name x) false) needs
-        (ESub (Act (KCreate owner attr (s_name x) (s_find x ++ s_set x))
-                   (ref_needs owner ++ simple_needs (s_find x ++ s_set x))
-                   (eful (s_decl x) (s_name x) ENil)) ENil).
+        (ESub (Act (KCreate owner attr (s_name x) simple)
+                   (ref_needs owner ++ simple_needs simple)
+                   (eful (s_decl x) (s_name x) (c_listattrs (RObj (s_name x)) props))) ENil).
 Fixpoint c_sitems (owner : ref) (attr : str) (l : list sitem) : evs :=
   match l with [] => ENil | x :: r => ESub (c_sitem owner attr x) (c_sitems owner attr r) end.
 Fixpoint c_syncs (owner : ref) (l : list (str * list sitem)) : evs :=
@@ -196,7 +217,7 @@ Definition compile (d : list instr) : list act := map c_instr d.
 
 (* ------------------------------------------------------------------ object store (a log) *)
 Inductive cval := CStr (s : str) | CObj (k : str).
-Inductive upd := UApp (owner attr member : str) | USet (owner attr : str) (v : cval).
+Inductive upd := UApp (owner attr member : str) | USet (owner attr : str) (v : cval) | UClear (owner attr : str).
 
 Definition resolve (pm : N -> option str) (r : ref) : str :=
   match r with
@@ -205,22 +226,37 @@ Definition resolve (pm : N -> option str) (r : ref) : str :=
   | RFind k _ => k
   end.
 Definition resolve_sval pm (v : sval) : cval :=
-  match v with SStr s => CStr s | SRef r => CObj (resolve pm r) end.
+  match v with SStr s => CStr s | SRef r => CObj (resolve pm r) | SList _ => CStr [] end.
+(* setattr(o, a, v) for a scalar / reference; getattr(o, a).clear() + one append per member for a list *)
+Definition set_upds pm (o a : str) (v : sval) : list upd :=
+  match v with
+  | SList l => UClear o a :: map (fun r => UApp o a (resolve pm r)) l
+  | _ => [USet o a (resolve_sval pm v)]
+  end.
 Definition upds (pm : N -> option str) (k : kind) : list upd :=
   match k with
   | KInstr => []
   | KSync _ _ _ _ => []
-  | KCreate o a n simple => UApp (resolve pm o) a n :: map (fun kv => USet n (fst kv) (resolve_sval pm (snd kv))) simple
+  | KCreate o a n simple => UApp (resolve pm o) a n :: flat_map (fun kv => set_upds pm n (fst kv) (snd kv)) simple
   | KAppend o a r => [UApp (resolve pm o) a (resolve pm r)]
-  | KSet o a v => [USet (resolve pm o) a (resolve_sval pm v)]
+  | KSet o a v => set_upds pm (resolve pm o) a v
   end.
 
 Definition cell_eqb (o a o' a' : str) : bool := str_eqb o o' && str_eqb a a'.
-Definition wl (o a : str) (u : upd) : list str :=
-  match u with UApp o' a' m => if cell_eqb o a o' a' then [m] else [] | USet _ _ _ => [] end.
+(* the updates of the log that touch the list cell (o, a), and what they leave in it: an append adds a
+   member at the end, a clear empties the list (also of the members the base model had) *)
+Definition wl (o a : str) (u : upd) : list upd :=
+  match u with
+  | UApp o' a' _ => if cell_eqb o a o' a' then [u] else []
+  | UClear o' a' => if cell_eqb o a o' a' then [u] else []
+  | USet _ _ _ => []
+  end.
+Definition step_l (acc : list str) (u : upd) : list str :=
+  match u with UApp _ _ m => acc ++ [m] | UClear _ _ => [] | USet _ _ _ => acc end.
+Definition eval_l (l : list upd) : list str := fold_left step_l l [].
 Definition wv (o a : str) (u : upd) : list cval :=
-  match u with USet o' a' v => if cell_eqb o a o' a' then [v] else [] | UApp _ _ _ => [] end.
-Definition read_list (o a : str) (log : list upd) : list str := flat_map (wl o a) log.
+  match u with USet o' a' v => if cell_eqb o a o' a' then [v] else [] | _ => [] end.
+Definition read_list (o a : str) (log : list upd) : list str := eval_l (flat_map (wl o a) log).
 Definition read_val (o a : str) (log : list upd) : option cval := last (map Some (flat_map (wv o a) log)) None.
 
 (* the log written by the executed actions (oldest first), references resolved through the promise map *)
@@ -230,9 +266,9 @@ Definition final_log (s : st) : list upd :=
 (* ------------------------------------------------------------------ decidable side conditions *)
 (* the list / value cells an action writes *)
 Definition lcells pm (x : act) : list (str * str) :=
-  flat_map (fun u => match u with UApp o a _ => [(o, a)] | USet _ _ _ => [] end) (upds pm (a_kind x)).
+  flat_map (fun u => match u with UApp o a _ => [(o, a)] | UClear o a => [(o, a)] | USet _ _ _ => [] end) (upds pm (a_kind x)).
 Definition vcells pm (x : act) : list (str * str) :=
-  flat_map (fun u => match u with USet o a _ => [(o, a)] | UApp _ _ _ => [] end) (upds pm (a_kind x)).
+  flat_map (fun u => match u with USet o a _ => [(o, a)] | _ => [] end) (upds pm (a_kind x)).
 Definition disj (c1 c2 : list (str * str)) : bool :=
   forallb (fun c => forallb (fun c' => negb (cell_eqb (fst c) (snd c) (fst c') (snd c'))) c2) c1.
 (* no two actions (at different positions) write the same cell *)
@@ -284,19 +320,27 @@ Definition dec_sval (v : val) : option sval :=
   match v with
   | VL [VZ 0; VS s] => Some (SStr s)
   | VL [VZ 1; r] => match dec_ref r with Some r => Some (SRef r) | None => None end
+  | VL [VZ 2; VL rs] => match all_some (map dec_ref rs) with Some l => Some (SList l) | None => None end
   | _ => None
   end.
 Definition dec_kv (v : val) : option (str * sval) :=
   match v with VL [VS k; x] => match dec_sval x with Some x => Some (k, x) | None => None end | _ => None end.
 Definition dec_kvs (v : val) : option (list (str * sval)) :=
   match v with VL l => all_some (map dec_kv l) | _ => None end.
+(* attribute mappings in which a list value is not allowed (the harness encodes the list-valued attributes of
+   an item as `complex` groups; find keys are scalars or references) *)
+Definition dec_kvs_flat (v : val) : option (list (str * sval)) :=
+  match dec_kvs v with
+  | Some l => if existsb is_list l then None else Some l
+  | None => None
+  end.
 Definition dec_decl (v : val) : option (option N) :=
   match v with VNone => Some None | VZ p => Some (Some (Z.to_N p)) | _ => None end.
 
 Fixpoint dec_item (v : val) {struct v} : option item :=
   match v with
   | VL [VZ 0; d; VS name; simple; VL gs] =>
-      match dec_decl d, dec_kvs simple,
+      match dec_decl d, dec_kvs_flat simple,
             (fix go (gs : list val) : option groups :=
                match gs with
                | [] => Some GNil
@@ -330,7 +374,7 @@ Definition dec_groups (v : val) : option groups :=
 Definition dec_sitem (v : val) : option sitem :=
   match v with
   | VL [VB f; d; VS name; fi; se] =>
-      match dec_decl d, dec_kvs fi, dec_kvs se with
+      match dec_decl d, dec_kvs_flat fi, dec_kvs se with
       | Some d, Some fi, Some se => Some (mkSitem f d name fi se)
       | _, _, _ => None
       end
@@ -363,6 +407,7 @@ Definition enc_tev (pm : N -> option str) (e : tev) : list val :=
   | TDefer p _ => [VL [VZ 0; VZ (Z.of_N p)]]
   | TExec (KCreate _ _ n _) => [VL [VZ 1; VS n]]
   | TExec (KAppend o a r) => [VL [VZ 2; VS (resolve pm o); VS a; VS (resolve pm r)]]
+  | TExec (KSet o a (SList l)) => map (fun r => VL [VZ 2; VS (resolve pm o); VS a; VS (resolve pm r)]) l
   | TExec (KSet o a _) => [VL [VZ 3; VS (resolve pm o); VS a]]
   | _ => []
   end.
